@@ -11,6 +11,7 @@ from lib import Prop, SkipCase
 import util
 from props import c05 as S
 from props.c06 import make_measure, strip_vecs, structural_oracle, conservation_oracle, expm_herm, mode_of, TOL
+from props import c07w           # C07W hook: store-level tie (Evo/TDVPStore.v, two-site part)
 
 
 def svd_params(spec):
@@ -32,6 +33,10 @@ def _run_case(case):
                                 after_step=measure)
         ob["hscale"] = float(np.max(np.abs(sysd["H"])))
         ob["initial_shapes"] = None
+        # --- C07W hook: private run of the same class for the store-level tie (structure after constructor / steps) ---
+        if c07w.sampled(case, 0):
+            ob["w"] = c07w.real_side(case, sysd, mode_of(case.get("mode", "expm")), svd, S.make_algo, S.rtree_json)
+        # --- end C07W hook ---
         ob["psi0_dev"] = float(np.max(np.abs(ob["measure"][0]["vec"] - psi0))) if ob["measure"] else None
         if "exception" not in ob and case["sub"] == "twonode":
             devs = []
@@ -66,10 +71,24 @@ class C07(Prop):
         ("F", "the truncation rule keeps between 1 and max_bond_dim singular values (C07_bond_bounded = C10's select_spec)"),
         ("O", "Layer A: a unitary commuting with K = E^+HE preserves norm and energy of E A (C07_local_update_conserves); contracts: expm kernel, "
               "exact SVD U S Vh = A with U, Vh isometries (LAPACK)"),
-        ("I", "per explored instance: schedule checker + duration checker on the exactly matching model trace"),
-        ("V", "conservation, two-node exactness (exp(A/2)^2 = exp(A) of the kernel), structure, canonical form, bond bounds: numerical / runtime oracle"),
+        ("F", "store level (Evo/TDVPStore.v: TwoSite = legs_before_combination, contract_nodes(a, b, TwoSite_a_contr_b), read + raw replacement of the "
+              "contracted tensor, split_node_svd with the recorded specifications - the truncated bond dimension is an argument -, centre := b; "
+              "SiteBack = site update; centre moves = move_orthogonalization_center(KEEP)): for EVERY well-formed tree store (wfb, >= 2 nodes) whose "
+              "recorded centre is update_path[0], given one bond dimension per two-site update, the step SUCCEEDS, keeps the store invariant, the "
+              "node identifiers, every parent pointer, every children set and the root, and ends with the recorded centre on update_path[0] "
+              "(C07_two_site_step_on_store); one two-site update touches no third node and removes the temporary node (C07_two_site_update_on_store)"),
+        ("I", "per explored instance: schedule checker + duration checker on the exactly matching model trace; store-level tie (c07w): build programme "
+              "accepted, tree_of = live tree, every model stage defined, the number of SVD kernel calls = the number of two-site updates of the model, "
+              "and the extended isometry attribute iso_check2 (every non-centre node is the first factor of a QR or truncated-SVD call with its bond "
+              "toward the recorded centre: canonical form at the recorded centre) after the constructor and after every step"),
+        ("V", "conservation, two-node exactness (exp(A/2)^2 = exp(A) of the kernel), numerical isometry check of the real tensors (SVD/QR kernel "
+              "contracts), bond bounds: numerical / runtime oracle; canonical form of the two-site step as a universal statement is not proved "
+              "(per instance only)"),
     ]
-    trusted_base = ["np.linalg.eigh for the reference propagator; einsum for dense states; kron for the dense Hamiltonian",
+    trusted_base = ["store-level tie: harness/props/c07w.py + c06w.py + wmodel.py (exact comparison of node dict order, parents, children order, leg "
+                    "permutations, raw shapes, tensor dict order, root, centre after the constructor and after up to two steps; the bond dimensions of the "
+                    "truncated SVDs are read at the kernel boundary contr_truncated_svd_splitting and handed to the model)",
+                    "np.linalg.eigh for the reference propagator; einsum for dense states; kron for the dense Hamiltonian",
                     "LAPACK SVD inside split_node_svd is exercised, not modelled (C11)"]
     assumptions = ["Hermitian Hamiltonian for conservation and exactness; truncation disabled means max_bond_dim=inf, tolerances -inf"]
 
@@ -88,6 +107,9 @@ class C07(Prop):
                           # state's nodes changes between steps (each contract/split pair rotates it)
                           "nsteps": (3 if (par in S.SPECIAL_TREES and 4 <= len(par) <= 5) else rng.choice([1, 2, 3])) if len(par) <= 5 else 1,
                           "nterms": rng.choice([1, 2, 3])})
+            if j % 10 == 5:
+                # default mode through the documented builder tdvp(...) with its default time-evolution configuration
+                cases[-1]["builder"] = True
         # ODE evolution modes (solve_ivp tolerances rtol=1e-3): the backward site updates of the two-site scheme are
         # integrated with forward=True and a NEGATIVE duration; conservation is checked to 2e-2
         for rep in range(ctx.scale(8, 80) * budget_scale):
@@ -125,17 +147,24 @@ class C07(Prop):
         return [SkipCase(o["skip"]) if "skip" in o else o for o in obs]
 
     def model(self, ctx, cases, obs):
+        # --- C07W hook: tdvp_init / tdvp2s_step_t evaluated on the model store of the initial state ---
+        self._w = c07w.run(ctx, cases, obs)
+        # --- end C07W hook ---
         return S.eval_models(ctx, cases, obs)
 
     def compare(self, case, ob, mo):
         S.tally_instance(self, mo)
         if ob.get("construct"):
             return f"implementation raised in the constructor: {ob['exception']}"
-        return S.compare_traces(case, ob, mo)
+        d = S.compare_traces(case, ob, mo)
+        if d is None and ob.get("w_tie"):          # C07W hook
+            return ob["w_tie"]
+        return d
 
     def extra_obligations(self, ctx):
         n, ok, fails = self.__dict__.get("_inst", [0, 0, []])
-        return n, ok, fails
+        wn, wok, wfails = self.__dict__.get("_w", (0, 0, []))      # C07W hook: per-instance store-level obligations
+        return n + wn, ok + wok, list(fails) + list(wfails)
 
     def oracle(self, case, ob):
         kind = "tdvp2s"
